@@ -308,6 +308,7 @@ def _mk_leaves():
     add(struct("DCkw", kw))
     add(struct("DCfrozen", kw, hashable=True))
     add(struct("DCcall", kw))
+    add(struct("DCcv", kw))
     add(struct("NT", kw, hashable=True))
     add(struct("NTba", kw, hashable=True))  # str field first (2-character / 2-element first members)
     add(struct("NTbaSub", kw, hashable=True))
